@@ -19,7 +19,7 @@ assert rc == 0, out
 res = {}
 try:
     shutil.copy(os.path.join(src, "demo_test.go"), os.path.join(wt, target, "zz_demo_test.go"))
-    run = "go test -vet=off -count=1 -run 'TestC[0-9]+' ./%s" % target
+    run = "go test -vet=off -count=1 -run 'TestC[0-9]+|TestDemo' ./%s" % target
     rc, out = sh(run, cwd=wt); res["clean_demo_passes"] = rc == 0; res["clean_demo_out"] = out[-600:]
     os.remove(os.path.join(wt, target, "zz_demo_test.go"))
     rc, out = sh(["python3", "/verif/bin/baseline.py", wt]); res["clean_baseline"] = rc == 0
